@@ -217,13 +217,43 @@ example :
         (obs (run E0 (run E0 s00 (witnessPre .append)) (witnessPost .append)).heap)
       = some ⟨1, [0, 1, 2], [], [[(7, [100, 200, 300])]]⟩ := by decide
 
-/-- non-vacuity of `derivations_commute_partial`: after the four `newMesh` steps, `base.Append(a)` and `base.Append(b)`
-    both apply, in both orders -/
+/-- both calls of one order succeed with exactly one result each (decidable form of the hypotheses of
+    `derivations_commute_partial`) -/
+def appliesInOrder (E : Env α) (s : State κ α) (o1 o2 : Op κ α) : Bool :=
+  match o1.apply E s with
+  | some (h1, [r1]) =>
+    (match o2.apply E ⟨h1, s.pool ++ [r1]⟩ with
+     | some (_, [_]) => true
+     | _ => false)
+  | _ => false
+
+theorem appliesInOrder_spec (E : Env α) (s : State κ α) (o1 o2 : Op κ α) (h : appliesInOrder E s o1 o2 = true) :
+    ∃ h1 r1 h12 r2', o1.apply E s = some (h1, [r1]) ∧ o2.apply E ⟨h1, s.pool ++ [r1]⟩ = some (h12, [r2']) := by
+  unfold appliesInOrder at h
+  split at h
+  · rename_i h1 r1 e1
+    split at h
+    · rename_i h12 r2 e2
+      exact ⟨h1, r1, h12, r2, e1, e2⟩
+    · cases h
+  · cases h
+
+/-- non-vacuity of `derivations_commute_partial`: after the four `newMesh` steps of the witness, `o1 = base.Append(a)` and
+    `o2 = base.Append(b)` satisfy ALL FOUR hypotheses of the theorem (`apply = some (h, [r])` in `s`, and each after the
+    other), with a valid `s` -/
 example :
-    ((Op.append 0 1 : Op Nat Nat).apply E0 (run E0 s00 ((witnessPre .append).take 4))).isSome = true ∧
-    (run E0 s00 ((witnessPre .append).take 4 ++ [.append 0 1, .append 0 2])).pool.length = 6 ∧
-    (run E0 s00 ((witnessPre .append).take 4 ++ [.append 0 2, .append 0 1])).pool.length = 6 := by
-  decide +kernel
+    let s := run E0 s00 ((witnessPre .append).take 4)
+    let o1 : Op Nat Nat := .append 0 1
+    let o2 : Op Nat Nat := .append 0 2
+    s.Valid ∧ ∃ h1 r1 h2 r2 h12 r2' h21 r1',
+      o1.apply E0 s = some (h1, [r1]) ∧ o2.apply E0 s = some (h2, [r2]) ∧
+      o2.apply E0 ⟨h1, s.pool ++ [r1]⟩ = some (h12, [r2']) ∧
+      o1.apply E0 ⟨h2, s.pool ++ [r2]⟩ = some (h21, [r1']) := by
+  intro s o1 o2
+  refine ⟨run_valid E0 _ s00 empty_valid (by decide), ?_⟩
+  obtain ⟨h1, r1, h12, r2', a1, a12⟩ := appliesInOrder_spec E0 s o1 o2 (by decide +kernel)
+  obtain ⟨h2, r2, h21, r1', a2, a21⟩ := appliesInOrder_spec E0 s o2 o1 (by decide +kernel)
+  exact ⟨h1, r1, h2, r2, h12, r2', h21, r1', a1, a2, a12, a21⟩
 
 end C01
 end PolyVerif
